@@ -354,6 +354,9 @@ func (x *Exec) val(st *State, v ssa.Value) Val {
 				st.clos = map[string]Val{}
 			}
 			st.clos[v.T.Key()] = v
+			// a function literal without captured variables is its own code: fnof(f) == f
+			theU.DeclFunc("fnof", SInt, SInt)
+			st.add(Eq(App("fnof", SInt, v.T), v.T))
 		}
 		return v
 	case *ssa.Global:
